@@ -123,6 +123,82 @@ func FamPeerFuzz(seed int64, n int) FuzzRecord {
 			return "calls on the sibling link hang"
 		}
 	}
+	// a closure the hub passed over the sibling link stays in flight (the sibling invokes it at the very end):
+	// malformed peers on other links come and go meanwhile and must not disturb it
+	type dres struct {
+		v   int
+		err error
+	}
+	delayed := make(chan dres, 1)
+	go func() {
+		ctx, cancel := context.WithTimeout(context.Background(), 60*time.Second)
+		defer cancel()
+		v, err := hubRem.Delayed(ctx, 9000, func(ctx context.Context, x int) (int, error) { return x + 1, nil })
+		delayed <- dres{v, err}
+	}()
+	waitUntil(func() bool { return hasInv(w, "Delayed", 9000) }, 3*time.Second)
+	// a peer that answers every call of the hub several times (duplicates race the waiter's clean-up)
+	{
+		reqOut := make(chan json.RawMessage, 64)
+		reqIn, resIn := newFrameQ[json.RawMessage](), newFrameQ[json.RawMessage]()
+		ctx, cancel := context.WithCancel(context.Background())
+		errc := make(chan error, 1)
+		before := hub.Remotes()
+		go func() {
+			errc <- hub.Reg.LinkMessage(ctx, func(b json.RawMessage) error { reqOut <- b; return nil },
+				func(b json.RawMessage) error { return nil }, reqIn.Get, resIn.Get, c.Marshal, c.Unmarshal, nil)
+		}()
+		WaitRemotes(hub, 2)
+		var dup sysRemote
+		found := false
+		for id, x := range hub.Remotes() {
+			if _, ok := before[id]; !ok {
+				dup, found = x, true
+			}
+		}
+		go func() {
+			for {
+				select {
+				case b := <-reqOut:
+					var q struct {
+						Call string            `json:"call"`
+						Args []json.RawMessage `json:"args"`
+					}
+					json.Unmarshal(b, &q)
+					val := json.RawMessage("0")
+					if len(q.Args) == 2 {
+						val = q.Args[1]
+					}
+					for k := 0; k < 6; k++ {
+						resIn.Put(json.RawMessage(fmt.Sprintf(`{"call":%q,"value":%s,"err":""}`, q.Call, val)))
+					}
+				case <-ctx.Done():
+					return
+				}
+			}
+		}()
+		if found {
+			for k := 0; k < 60; k++ {
+				cctx, ccancel := context.WithTimeout(context.Background(), 3*time.Second)
+				v, err := dup.EchoInt(cctx, 9100+k, int64(k))
+				ccancel()
+				if err != nil || v != int64(k) {
+					rec.Notes = append(rec.Notes, fmt.Sprintf("a peer that answers every call six times: call %d returned (%d, %v), expected (%d, nil)", k, v, err, k))
+					break
+				}
+			}
+		} else {
+			rec.Notes = append(rec.Notes, "duplicate-response link did not come up")
+		}
+		cancel()
+		reqIn.Close(errors.New("gone"))
+		resIn.Close(errors.New("gone"))
+		select {
+		case <-errc:
+		case <-time.After(3 * time.Second):
+			rec.Notes = append(rec.Notes, "duplicate-response link did not return")
+		}
+	}
 	for i := 0; i < n; i++ {
 		fc := FuzzCase{Stream: i%4 == 3}
 		nf := 1 + r.Intn(3)
@@ -210,6 +286,16 @@ func FamPeerFuzz(seed int64, n int) FuzzRecord {
 		if s := probe(); s != "ok" {
 			rec.Notes = append(rec.Notes, "after the fuzz sequence: "+s)
 		}
+	}
+	// now the sibling invokes the closure the hub passed at the very beginning
+	close(w.gate(9000))
+	select {
+	case d := <-delayed:
+		if d.err != nil || d.v != 9001 {
+			rec.Notes = append(rec.Notes, fmt.Sprintf("a closure the hub passed over the sibling link before the malformed peers came and went no longer works: the call returned (%d, %v), expected (9001, nil)", d.v, d.err))
+		}
+	case <-time.After(5 * time.Second):
+		rec.Notes = append(rec.Notes, "the closure-carrying call over the sibling link did not return")
 	}
 	sl.CancelA()
 	sl.CancelB()
